@@ -23,6 +23,7 @@ import (
 	"runtime"
 	"strings"
 	"sync"
+	"time"
 
 	"filippo.io/age/internal/verifhook"
 	"filippo.io/age/xverif/internal/vk"
@@ -118,6 +119,22 @@ const cfg = "SPECIFICATION Spec\nCONSTRAINT HighWater\nPOSTCONDITION Verdict\nCH
 // MachineMustHold model-checks AgeFlow under every event order it allows (AgeFlowMC) and checks that the two
 // success states are reachable (so that the invariants are not vacuous).
 func MachineMustHold(run *vk.Run) {
+	if run.Prop == "C01" || run.Thorough() {
+		// for ANY number of recipients / identities: the inductive invariant of one frame (Apalache)
+		steps := [][]string{{"--init=Init", "--inv=IndInv", "--length=0"}, {"--init=IndInit", "--inv=IndInv", "--length=1"},
+			{"--init=IndInit", "--inv=PayloadOnlyAfterOpenAndMac", "--length=0"}, {"--init=IndInit", "--inv=HeaderOnlyAfterAllWraps", "--length=0"}}
+		vk.Parallel(len(steps), len(steps), func(i int) {
+			step := steps[i]
+			out, ok, err := vk.RunApalache("AgeFlowInd", 10*time.Minute, append(append([]string{}, step...), "--cinit=CInit")...)
+			if err != nil {
+				vk.Infra("apalache (AgeFlowInd %v): %v\n%s", step, err, lastLines(out))
+			}
+			if !ok {
+				vk.Infra("AgeFlowInd: %v does not hold (specification-level failure):\n%s", step, lastLines(out))
+			}
+		})
+		run.Set("apalache_ageflow_inductive_invariant", "AgeFlowInd!IndInv: Init => IndInv, IndInv /\\ Next => IndInv', IndInv => PayloadOnlyAfterOpenAndMac /\\ HeaderOnlyAfterAllWraps, for every N >= 1")
+	}
 	mc := "SPECIFICATION Spec\nCONSTANTS\n MaxN = 3\n MaxDepth = 2\nINVARIANTS DecDone EncDone NoMatch Bounded\nCHECK_DEADLOCK FALSE\n"
 	run.SpecMustHold("ageflow-machine", vk.TLCOpts{Module: "AgeFlowMC", Config: mc, Workers: 8})
 	for _, inv := range []string{"NeverDecDone", "NeverEncDone"} {
@@ -203,4 +220,12 @@ func RepoSuite(run *vk.Run) {
 		return
 	}
 	Validate(run, "repo-suite", b)
+}
+
+func lastLines(s string) string {
+	l := strings.Split(s, "\n")
+	if len(l) > 25 {
+		l = l[len(l)-25:]
+	}
+	return strings.Join(l, "\n")
 }
